@@ -1,4 +1,5 @@
 //! C01 — running a program yields exactly what its source text denotes.
+use crate::diff::{diff_source_budget, Verdict};
 use crate::difftest::*;
 use crate::gen::Profile;
 use crate::refint::RefObs;
@@ -12,18 +13,112 @@ pub fn replay(case: &serde_json::Value) -> Option<Violation> {
     replay_src("C01", case)
 }
 
+/// Programs that are large in one dimension, with an observable result: tables with more than 256 / 1000 entries (globals,
+/// locals, parameters, constants of every type, functions, list elements), long statement sequences, long jumps, many
+/// iterations, deep recursion, deep scopes. Judged like every other program: against the reference interpreter.
+fn scale_programs() -> Vec<(String, String)> {
+    let mut v: Vec<(String, String)> = Vec::new();
+    let pick = |n: usize| -> Vec<usize> {
+        let mut k: Vec<usize> = vec![0, 1, 127, 128, 254, 255, 256, 257, 511, 512, 999, 1000, n - 1];
+        k.retain(|x| *x < n);
+        k.dedup();
+        k
+    };
+    for n in [200usize, 300, 1000, 3000] {
+        let sel = |f: &dyn Fn(usize) -> String| pick(n).iter().map(|i| f(*i)).collect::<Vec<_>>().join(", ");
+        v.push((format!("globals:{n}"), format!("{}[{}]", (0..n).map(|i| format!("stel g{i} = {}; ", i * 3 + 1)).collect::<String>(), sel(&|i| format!("g{i}")))));
+        v.push((
+            format!("globals-assigned-later:{n}"),
+            format!("{}{}[{}]", (0..n).map(|i| format!("stel g{i} = 0; ")).collect::<String>(), (0..n).map(|i| format!("g{i} = g{i} + {}; ", i + 7)).collect::<String>(), sel(&|i| format!("g{i}"))),
+        ));
+        v.push((format!("locals:{n}"), format!("functie f(a) {{ {}[{}] }}; f(5)", (0..n).map(|i| format!("stel l{i} = a + {i}; ")).collect::<String>(), sel(&|i| format!("l{i}")))));
+        v.push((format!("int-constants:{n}"), format!("stel s = 0; {}s", (0..n).map(|i| format!("s = s + {}; ", 100_000 + i * 17)).collect::<String>())));
+        v.push((format!("float-constants:{n}"), format!("stel a = [{}]; [{}]", (0..n).map(|i| format!("{i}.25")).collect::<Vec<_>>().join(", "), sel(&|i| format!("a[{i}]")))));
+        v.push((format!("text-constants:{n}"), format!("stel a = [{}]; [lengte(a), {}]", (0..n).map(|i| format!("\"t{i}\"")).collect::<Vec<_>>().join(", "), sel(&|i| format!("a[{i}]")))));
+        v.push((format!("list-elements:{n}"), format!("stel a = [{}]; [lengte(a), a[-1], {}]", (0..n).map(|i| format!("{}", i * 2)).collect::<Vec<_>>().join(", "), sel(&|i| format!("a[{i}]")))));
+        v.push((format!("functions:{n}"), format!("{}[{}]", (0..n).map(|i| format!("functie f{i}(x) {{ x + {i} }}; ")).collect::<String>(), sel(&|i| format!("f{i}(1)")))));
+        v.push((format!("statements:{n}"), format!("stel a = 0; {}a", (0..n).map(|i| format!("a = a + {}; ", i % 7)).collect::<String>())));
+        v.push((format!("prints:{n}"), format!("{}1", (0..n.min(1000)).map(|i| format!("print(\"{{}} {{}}\", {i}, \"r{i}\"); ")).collect::<String>())));
+        // a branch / a loop body / a function body that is long: jumps over thousands of bytes
+        let filler: String = (0..n).map(|i| format!("a = a + {}; ", i % 5)).collect();
+        v.push((format!("long-branch-not-taken:{n}"), format!("stel a = 1; als a > 5 {{ {filler} }} anders {{ a = a + 100 }}; a")));
+        v.push((format!("long-branch-taken:{n}"), format!("stel a = 1; als a < 5 {{ {filler} }} anders {{ a = a + 100 }}; a")));
+        v.push((format!("long-loop-body:{n}"), format!("stel a = 0; stel i = 0; zolang i < 3 {{ i = i + 1; als i == 2 {{ volgende }}; {filler} }}; [a, i]")));
+        v.push((format!("long-function-body:{n}"), format!("functie f(a) {{ als a > 100 {{ antwoord a }}; {filler} a }}; [f(1), f(200)]")));
+        v.push((format!("stop-over-long-body:{n}"), format!("stel a = 0; stel i = 0; zolang ja {{ i = i + 1; als i == 3 {{ stop }}; {filler} }}; [a, i]")));
+    }
+    for n in [10usize, 100, 255] {
+        let params: Vec<String> = (0..n).map(|i| format!("p{i}")).collect();
+        v.push((format!("parameters:{n}"), format!("functie f({}) {{ [p0, p{}, p{}] }}; f({})", params.join(", "), n / 2, n - 1, (0..n).map(|i| format!("{i} * 2")).collect::<Vec<_>>().join(", "))));
+    }
+    for n in [1_000i64, 65_535, 65_536, 65_537, 100_000] {
+        v.push((format!("iterations:{n}"), format!("stel s = 0; stel i = 0; zolang i < {n} {{ i = i + 1; s = s + i % 7 }}; [s, i]")));
+    }
+    for n in [100usize, 1_000, 10_000] {
+        v.push((format!("recursion:{n}"), format!("functie som(n) {{ als n == 0 {{ antwoord 0 }}; n + som(n - 1) }}; som({n})")));
+        v.push((format!("list-walk:{n}"), format!("stel l = []; stel i = 0; zolang i < {n} {{ l = [i, l]; i = i + 1 }}; stel k = 0; stel s = 0; zolang lengte(l) > 0 {{ s = s + l[0]; l = l[1]; k = k + 1 }}; [k, s]")));
+        v.push((format!("text-length:{n}"), format!("stel t = \"{}é\"; [lengte(t), t[-1], t[{}], t[0]]", "ab".repeat(n), n)));
+    }
+    for depth in [20usize, 100, 150] {
+        // a variable per level of nested blocks / nested functions, all read at the innermost level
+        let open: String = (0..depth).map(|i| format!("{{ stel b{i} = {i}; ")).collect();
+        let sum: String = (0..depth).map(|i| format!("b{i}")).collect::<Vec<_>>().join(" + ");
+        v.push((format!("nested-scopes:{depth}"), format!("stel r = 0; {open}r = {sum}{}; r", " }".repeat(depth))));
+        let open: String = (0..depth.min(60)).map(|i| format!("functie f{i}(x{i}) {{ ")).collect();
+        let close: String = (0..depth.min(60)).rev().map(|i| format!(" f{}(x{i} + 1) }}", i + 1)).collect();
+        v.push((format!("nested-functions:{}", depth.min(60)), format!("{open}functie f{}(z) {{ z * 2 }}{close}; f0(1)", depth.min(60))));
+    }
+    v
+}
+
+fn scale_family(rep: &mut Report) {
+    for (name, src) in scale_programs() {
+        rep.eval();
+        rep.count("scale-programs");
+        rep.nontrivial(&name);
+        let prog = match crate::dbgparse::parse_source(&src) {
+            Ok(p) => p,
+            Err(e) => {
+                if std::env::var("NLV_SCALE_TIMES").is_ok() {
+                    eprintln!("{name}: not parsed: {}", e.chars().take(200).collect::<String>());
+                }
+                // the text is beyond a limit of the front end: the implementation must say so in an orderly way (C05), nothing to compare
+                rep.count("scale-programs:not-parsed");
+                continue;
+            }
+        };
+        let out = diff_source_budget(&prog, src.clone(), 40_000_000, 40_000_000);
+        match out.verdict {
+            Verdict::Agree => rep.count("scale-programs:agree"),
+            Verdict::Discard(why) => {
+                if std::env::var("NLV_SCALE_TIMES").is_ok() {
+                    eprintln!("{name}: discarded: {why}");
+                }
+                rep.count(&format!("scale-programs:discard:{}", why.split(':').next().unwrap_or("")))
+            }
+            Verdict::Violation { class, expected, observed } => {
+                let clip = |t: String| t.chars().take(600).collect::<String>();
+                rep.violation(Violation { property: "C01".into(), driver: "scale".into(), class: format!("scale:{class}"), case: serde_json::json!({"src": src, "family": name}), expected: clip(expected), observed: clip(observed) });
+            }
+        }
+    }
+    rep.sample(serde_json::json!({"scale": "stel g0 = 1 ... stel g999 = 2998; [g0, g1, g127, g128, g254, g255, g256, g257, g511, g512, g999]"}));
+}
+
 pub fn run(ctx: &Ctx) -> Report {
     let mut rep = Report::new(
         "C01",
         "exploration",
         "type-directed programs generated from proptest choice tapes (profile `general`: all statement forms, operators, builtins, functions, recursion, arrays, strings, \
          with at most one injected fault), printed canonically, evaluated by nederlang::eval and by the definitional reference interpreter; \
+         plus about 90 programs that are large in one dimension (200 ... 3000 globals, locals, constants of every type, functions, list elements, statements; branches, loop and function bodies of thousands of bytes; 255 parameters; 100 000 iterations; recursion and lists of 10 000; 150 nested scopes), against the same oracle; \
          results compared structurally (value graph with sharing, output bytes, error kind). non-trivial = the run executed >=1 call or loop iteration and touched >=2 feature classes; distinct by source text",
     );
     rep.assumptions.push("the reference interpreter (harness/src/refint.rs) is the specification; behaviours listed in DESIGN.md 4.3 (U1-U21) are discarded, not judged".into());
     let known = load_known_findings();
     let cases = ctx.pick(400_000u32, 12_000_000u32) / ctx.shards as u32;
     let seed = ctx.seed;
+    scale_family(&mut rep);
     par_shards(ctx.shards, rep, move |shard, r| {
         let cfg = DiffCfg { prop: "C01", driver: "random-general", profile: Profile::general(), cases, max_len: 600, seed: seed.wrapping_mul(7919) + shard as u64, layout: true };
         run_diff_tapes(r, &cfg, &nontrivial, &known);
